@@ -2,15 +2,18 @@
 designed network's settings unchanged; only the spectrum slots depend on history.
 
 B1  spec/Planning.tla (batch pipeline: Process(r)* then Report) instantiated by MC_Planning: every ordering of every
-    subset of a pool of five request classes (325 histories) with Independent, SettingsAreTheDesign,
+    subset of a pool of six request classes (1956 histories) with Independent, SettingsAreTheDesign,
     OnlySlotsDependOnHistory, BlockedHoldsNoSpectrum as invariants and NetworkFrozen as action property.  The same
     model with Leaky = TRUE (propagation on the shared element objects) MUST violate them - the clauses are not vacuous.
-B2  every history TLC enumerates is concretised into a real batch (the five classes realised on a bench network) and
+B2  every history TLC enumerates is concretised into a real batch (the six classes realised on a bench network) and
     replayed through the real worker_utils.planning() on a freshly designed network; the projected results, the solo
     result of every class, TLC's predicted verdict per position and network_to_json before/after go to a second TLC
     pass (Trace_Planning) which decides Independent / ModelAgrees / OnlySlotsDependOnHistory / NetworkFrozen.
-B3  the shipped service files in original, reversed and seeded-shuffled order; every response entry is compared with
-    the run of its own unit alone (unit = requests tied together by aggregation or a synchronization vector).
+B3  the shipped service files, batches of near-identical requests (a base + its one-attribute variants: hop type,
+    transceiver power, reference power, direction flag, channel count, spacing, include list) and seeded random
+    batches, in original, reversed and seeded-shuffled order; every response entry is compared with the run of its own
+    unit alone (unit = requests the user cannot tell apart - same resolved parameters - or tied by a synchronization
+    vector; an entry that mixes two units has no solo counterpart and violates Independent).
 """
 import copy
 import random
@@ -25,35 +28,40 @@ CLAUSES16 = ('Independent', 'ModelAgrees', 'OnlySlotsDependOnHistory', 'NetworkF
 
 # ---------------------------------------------------------------------------------------------- pool concretisation
 def pool(bench):
-    """the five request classes of MC_Planning realised on a bench.  Geometry assumed by the model and checked on the
-    solo runs below: dense / sat / slot pairwise share an OMS, dense and sat take the bottom of the band when alone,
+    """the six request classes of MC_Planning realised on a bench.  Geometry assumed by the model and checked on the
+    solo runs below: dense / sat / loose / slot pairwise share an OMS, the free ones take the bottom of the band when alone,
     slot fixes the bottom of the band."""
     if bench == 'meshV2':
         return {
             'dense': pu.rq('dense', 'Lannion_CAS', 'Lorient_KMA', typ='Voyager', mode='mode 1', spacing=37.5e9),
             'sat': pu.rq('sat', 'Lannion_CAS', 'Vannes_KBE', typ='VerifDense', mode=None, spacing=25e9, bw=200e9,
                          bidir=True),
-            'nopath': pu.rq('nopath', 'Lannion_CAS', 'Lorient_KMA',
-                            route=['roadm Vannes_KBE', 'roadm Brest_KLA', 'roadm Vannes_KBE']),
-            'badmode': pu.rq('badmode', 'Lannion_CAS', 'Vannes_KBE', typ='VerifHard', mode='h1'),
+            # nopath / loose: same ends, same include list (an amplifier of the opposite direction), hop type differs
+            'nopath': pu.rq('nopath', 'Lannion_CAS', 'Lorient_KMA', route=['east edfa in Lorient_KMA to Loudeac']),
+            'loose': pu.rq('loose', 'Lannion_CAS', 'Lorient_KMA', route=['east edfa in Lorient_KMA to Loudeac'],
+                           strict=False),
+            'badmode': pu.rq('badmode', 'Lannion_CAS', 'Vannes_KBE', typ='VerifHard', mode=None, spacing=75e9, bidir=True),
             'slot': pu.rq('slot', 'Brest_KLA', 'Lorient_KMA', route=['roadm Lannion_CAS'], slots=[(0, 4)]),
         }
     if bench == 'testTopology':
         return {
             'dense': pu.rq('dense', 'a', 'g', typ='VerifDense', mode='d1', spacing=37.5e9),
             'sat': pu.rq('sat', 'a', 'h', typ='VerifDense', mode=None, spacing=25e9, bw=200e9, bidir=True),
+            # nopath / loose: same ends, same include list (nodes in an impossible order), hop type differs
             'nopath': pu.rq('nopath', 'a', 'g', route=['roadm h', 'roadm a', 'roadm h']),
-            'badmode': pu.rq('badmode', 'a', 'h', typ='VerifHard', mode='h1'),
+            'loose': pu.rq('loose', 'a', 'g', route=['roadm h', 'roadm a', 'roadm h'], strict=False),
+            'badmode': pu.rq('badmode', 'a', 'h', typ='VerifHard', mode=None, spacing=75e9, bidir=True),
             'slot': pu.rq('slot', 'a', 'g', typ='Voyager', mode='mode 1', slots=[(0, 4)]),
         }
     raise KeyError(bench)
 
 
-SOLO_STATUS = {'dense': '', 'sat': '', 'nopath': 'NO_PATH_WITH_CONSTRAINT', 'badmode': 'MODE_NOT_FEASIBLE', 'slot': ''}
+SOLO_STATUS = {'dense': '', 'sat': '', 'nopath': 'NO_PATH_WITH_CONSTRAINT', 'loose': '', 'badmode': 'NO_FEASIBLE_MODE',
+               'slot': ''}
 
 
 def prepare_pool(bench, chk):
-    """solo runs of the five classes; fixes the slot class at the bottom of the band (from the dense solo run) and
+    """solo runs of the six classes; fixes the slot class at the bottom of the band (from the dense solo run) and
     verifies the concretisation realises the model's classes (otherwise the harness is wrong: machinery)"""
     p = pool(bench)
     probe = pu.run_batch(bench, {'path-request': [p['dense']]}, f'{bench}:probe', want_csv=False)
@@ -70,9 +78,9 @@ def prepare_pool(bench, chk):
         if run.entries[0]['o']['reason'] != SOLO_STATUS[c]:
             raise Machinery(f'{bench}: class {c} is not realised (solo reason {run.entries[0]["o"]["reason"]!r})')
         solos[c] = run
-    oms = {c: set(solos[c].entries[0]['o']['oms']) for c in ('dense', 'sat', 'slot')}
+    oms = {c: set(solos[c].entries[0]['o']['oms']) for c in ('dense', 'sat', 'slot', 'loose')}
     lo = {c: solos[c].entries[0]['o']['nm'][0][0] - solos[c].entries[0]['o']['nm'][0][1] for c in oms}
-    if not (oms['dense'] & oms['slot'] and oms['sat'] & oms['slot'] and oms['dense'] & oms['sat']) or len(set(lo.values())) != 1:
+    if not all(oms[a] & oms[b] for a in oms for b in oms) or len(set(lo.values())) != 1:
         raise Machinery(f'{bench}: pool geometry differs from the model {oms} {lo}')
     clamped = clamp_report(bench, p)
     chk.cov[f'{bench}_amplifiers_clamped_by_dense/sat'] = clamped
@@ -168,27 +176,6 @@ def b2(chk, bench, hists):
 
 
 # ------------------------------------------------------------------------------------------------------------- B3
-def units_of(data, run):
-    """requests tied together by aggregation (observed response ids) or by a synchronization vector"""
-    ids = [str(r['request-id']) for r in data['path-request']]
-    parent = {i: i for i in ids}
-
-    def find(x):
-        while parent[x] != x:
-            parent[x] = parent[parent[x]]
-            x = parent[x]
-        return x
-    groups = [e['e']['ids'] for e in run.entries] + [s['svec']['request-id-number'] for s in data.get('synchronization', [])]
-    for g in groups:
-        g = [x for x in g if x in parent]
-        for x in g[1:]:
-            parent[find(x)] = find(g[0])
-    out = {}
-    for i in ids:
-        out.setdefault(find(i), []).append(i)
-    return list(out.values())
-
-
 def restrict(data, ids):
     d = {'path-request': [copy.deepcopy(r) for r in data['path-request'] if str(r['request-id']) in ids]}
     sync = [copy.deepcopy(s) for s in data.get('synchronization', []) if set(s['svec']['request-id-number']) <= set(ids)]
@@ -214,7 +201,7 @@ def b3_file(chk, bench, label, data, orders, solo_cache):
             chk.violation(f'B3|exception-in-planning|{label.split("-")[0]}|{run.exc.split(":")[0]}',
                           dict(name=name, exception=run.exc, tb=run.tb, requests=d['path-request']))
             continue
-        units = units_of(d, run)
+        units = pu.units_by_key(run.inputs, d)
         unit_of = {i: k + 1 for k, u in enumerate(units) for i in u}
         c16 = {}
         for k, ent in enumerate(run.entries):
@@ -272,8 +259,9 @@ def shipped(tier):
 def run(chk):
     # ---- B1
     base = (tlc.SPEC / 'MC_Planning.cfg').read_text()
-    r = tlc.run('MC_Planning', timeout=600, tag='c16-mc')
-    chk.add_mc('MC_Planning (325 histories + reports, Leaky=FALSE)', r)
+    # all clauses as invariants; the same exhaustive run prints one line per history for B2 (Emit)
+    r = tlc.run('MC_Planning', cfg_text=base + '\nINVARIANT Emit\n', timeout=600, tag='c16-mc')
+    chk.add_mc('MC_Planning (1956 histories + reports, Leaky=FALSE, histories emitted)', r)
     chk.exhaustive = True
     bare = '\n'.join(ln for ln in base.splitlines() if not ln.startswith(('INVARIANT', 'PROPERTY')))
     for clause, kind in (('Independent', 'INVARIANT'), ('OnlySlotsDependOnHistory', 'INVARIANT'),
@@ -285,20 +273,20 @@ def run(chk):
             raise Machinery(f'vacuity: the defective model (Leaky) does not violate {clause}: {rl.error}')
     chk.cov['clauses_shown_non_vacuous'] = ['Independent', 'OnlySlotsDependOnHistory', 'NetworkFrozen']
     # ---- B2
-    re_ = tlc.run('MC_Planning', cfg_text=bare + '\nINVARIANT Emit\n', timeout=600, tag='c16-emit')
-    chk.add_mc('MC_Planning emission of histories', re_)
-    hists = sorted(re_.emitted, key=lambda h: (len(h['order']), h['order']))
-    if len(hists) != 325:
-        raise Machinery(f'{len(hists)} histories emitted, 325 expected')
+    hists = sorted(r.emitted, key=lambda h: (len(h['order']), h['order']))
+    if len(hists) != 1956:
+        raise Machinery(f'{len(hists)} histories emitted, 1956 expected')
     if chk.tier == 'quick':
         rng = random.Random(chk.seed)
-        short = [h for h in hists if len(h['order']) <= 3]
-        long_ = [h for h in hists if len(h['order']) > 3]
-        sel = short + rng.sample(long_, 25)
+        short = [h for h in hists if len(h['order']) <= 2]
+        long_ = [h for h in hists if len(h['order']) > 2]
+        sel = short + rng.sample(long_, 48)
         n = b2(chk, 'meshV2', sel)
         chk.cov['b2_histories'] = {'meshV2': n}
     else:
-        chk.cov['b2_histories'] = {'meshV2': b2(chk, 'meshV2', hists), 'testTopology': b2(chk, 'testTopology', hists)}
+        rng = random.Random(chk.seed)
+        tt = [h for h in hists if len(h['order']) <= 3] + rng.sample([h for h in hists if len(h['order']) > 3], 300)
+        chk.cov['b2_histories'] = {'meshV2': b2(chk, 'meshV2', hists), 'testTopology': b2(chk, 'testTopology', tt)}
     chk.cov['model_histories_with_slot_dependence'] = sum(1 for h in hists if not all(h['sameAsSolo']))
     # ---- B3
     rng = random.Random(chk.seed + 16)
@@ -315,6 +303,17 @@ def run(chk):
                 rng.shuffle(o)
                 orders.append((f'shuffled-{k}', o))
         jobs += b3_file(chk, bench, label, data, orders, cache)
+    # near-identical requests: a base and its one-attribute variants must each come out as if computed alone
+    for bench in (['meshV2+island'] if chk.tier == 'quick' else ['meshV2+island', 'testTopology']):
+        for label, reqs in pu.near_identical(bench):
+            n = len(reqs)
+            orders = [('original', list(range(n))), ('reversed', list(reversed(range(n))))]
+            if chk.tier == 'thorough':
+                for k in range(2):
+                    o = list(range(n))
+                    rng.shuffle(o)
+                    orders.append((f'shuffled-{k}', o))
+            jobs += b3_file(chk, bench, f'{label}@{bench}', {'path-request': reqs}, orders, cache)
     # seeded random batches (every blocking reason, fixed / multi slots, aggregation), each in several orders
     nrand = 3 if chk.tier == 'quick' else 32
     for b in range(nrand):
@@ -350,8 +349,9 @@ def run(chk):
     chk.cov['rule'] = ('B2: one case per (bench, history) - non-trivial when the history has >= 2 requests; '
                        'B3: one case per (service file, order)')
     chk.assume('the network is designed once (no --redesign-per-request); requests are computed by worker_utils.planning()')
-    chk.assume('solo run of a request = the batch restricted to its unit (requests aggregated with it or tied to it by a '
-               'synchronization vector), in the same relative order, on a freshly designed network')
+    chk.assume('solo run of a request = the batch restricted to its unit (requests with the same resolved parameters - the '
+               'only ones that may be aggregated - or tied to it by a synchronization vector), in the same relative order, '
+               'on a freshly designed network')
     chk.assume('network settings are observed through json_io.network_to_json (one CRC per exported element)')
     chk.assume('bench equipment = shipped eqpt_config.json plus two library transceiver types (VerifDense 25 GHz comb, '
                'VerifHard unreachable OSNR thresholds); no gnpy code is modified')
